@@ -206,13 +206,19 @@ func init() {
 			case 0:
 				v = rtValue{typ: "account", expr: "@" + r.Pick(accountPool)}
 			case 1:
-				v = rtValue{typ: "account", expr: "$x", decl: "account $x", vars: map[string]string{"x": r.Pick(append(accountPool, "A-b_c:0:z"))}}
+				name := r.Pick(append(accountPool, "A-b_c:0:z", "users:zoe", "Z", "bank:FR-ZZ_9:main", "a9", "0", "_", "x:y:z:0:9:A:Z"))
+				v = rtValue{typ: "account", expr: "$x", decl: "account $x", vars: map[string]string{"x": name}, given: name}
 			case 2:
 				v = rtValue{typ: "asset", expr: r.Pick(append(assetPool, "A", "X/Y/9", "0A"))}
+				if r.Chance(1, 2) {
+					name := r.Pick(append(assetPool, "A", "Z", "X/Y/9", "0A", "ZZ9", "AZ/09"))
+					v = rtValue{typ: "asset", expr: "$x", decl: "asset $x", vars: map[string]string{"x": name}, given: name}
+				}
 			case 3:
 				v = rtValue{typ: "string", expr: "\"" + r.Pick(strs) + "\""}
 			case 4:
-				v = rtValue{typ: "string", expr: "$x", decl: "string $x", vars: map[string]string{"x": r.Pick([]string{"", " ", "a\nb", "\"", "日本", "50%", " lead", "trail "})}}
+				str := r.Pick([]string{"", " ", "a\nb", "\"", "日本", "50%", " lead", "trail ", "z", "Zz9"})
+				v = rtValue{typ: "string", expr: "$x", decl: "string $x", vars: map[string]string{"x": str}, given: str}
 			case 5:
 				v = rtValue{typ: "number", expr: bi(int64(r.Intn(2000) - 1000)).String()}
 			case 6:
